@@ -245,7 +245,7 @@ func init() {
 			reflect.TypeFor[W6T]()},
 		// W7: arrays and maps of every fixed-width item (block-wise copies,
 		// counts multiplied by an item width)
-		{"W7", rec("W7", fld("f", arr(P("float"))), fld("d", arr(P("double"))), fld("g", arr(P("double"))), fld("b", arr(P("boolean"))), fld("i", arr(P("int"))), fld("s", arr(P("int"))),
+		{"W7", rec("W7", fld("f", arr(P("float"))), fld("d", arr(P("double"))), fld("g", arr(P("double"))), fld("b", arr(P("boolean"))), fld("i", arr(P("int"))), fld("s", arr(&ref.Schema{Kind: "int", Hint: "int16"})),
 			fld("x", arr(fixed("W7x", 4))), fld("m", mp(P("double"))), fld("n", mp(P("boolean"))), fld("k", mp(P("float"))),
 			fld("p0", un(P("null"), fixed("W7p", 0))), fld("m0", mp(fixed("W7m", 0))), fld("p1", un(P("null"), fixed("W7q", 1))),
 			fld("u", un(P("long"), P("int"))), fld("v", un(P("null"), P("long"), P("int"))), fld("z", P("long"))),
